@@ -73,8 +73,43 @@ def build_chi_leaf(leaf, n_ids):
     return m
 
 
-def build_chi(leaves, n_ids, force_composed=False):
+def random_nest(rng):
+    """
+    returns a function that restructures a list of sub-models without
+    changing their order: a contiguous block becomes a nested
+    ComposedPopulationModel and / or single sub-models are wrapped in a
+    ReducedPopulationModel (nothing fixed).  The flat parameter layout of
+    the resulting composite is the same as that of the flat list.
+    """
+    mode = int(rng.integers(4))
+    a = rng.random()
+    b = rng.random()
+    pick = rng.random(16)
+
+    def nest(models):
+        models = list(models)
+        n = len(models)
+        if mode in (1, 3):
+            for i in range(n):
+                if pick[i % 16] < 0.4 and not isinstance(
+                        models[i], chi.ReducedPopulationModel):
+                    models[i] = chi.ReducedPopulationModel(models[i])
+        if mode in (2, 3) and n >= 2:
+            i = int(a * (n - 1))
+            j = i + 1 + int(b * (n - i - 1))
+            j = min(max(j, i + 1), n)
+            if j - i >= 1 and not (i == 0 and j == n):
+                block = chi.ComposedPopulationModel(models[i:j])
+                models = models[:i] + [block] + models[j:]
+        return models
+    return nest
+
+
+def build_chi(leaves, n_ids, force_composed=False, nest=None):
     models = [build_chi_leaf(l, n_ids) for l in leaves]
+    if nest is not None:
+        models = nest(models)
+        force_composed = True
     if len(models) == 1 and not force_composed:
         m = models[0]
     else:
@@ -84,7 +119,7 @@ def build_chi(leaves, n_ids, force_composed=False):
 
 
 # ------------------------------------------------------------ parameters
-def leaf_top(rng, leaf, n_ids):
+def leaf_top(rng, leaf, n_ids, strong_cov=False):
     """well-conditioned top-level vector for one leaf (flat, chi order)"""
     d = leaf.n_dim
     k = leaf.kind
@@ -102,8 +137,16 @@ def leaf_top(rng, leaf, n_ids):
     else:
         base = rng.uniform(0.3, 0.8, n_ids * d)
     if leaf.cov:
-        beta = rng.uniform(-0.05, 0.05,
-                           len(leaf.cov['sel']) * leaf.cov['n_cov'])
+        n_cov = leaf.cov['n_cov']
+        beta = rng.uniform(-0.05, 0.05, len(leaf.cov['sel']) * n_cov)
+        if strong_cov:
+            # visible covariate effects on the location parameters (scales
+            # keep their small effects and stay positive)
+            for s_i, (p, dd) in enumerate(leaf.cov['sel']):
+                if p == 0 or k in 'PH':
+                    beta[s_i * n_cov:(s_i + 1) * n_cov] = \
+                        rng.uniform(0.3, 0.6, n_cov) * rng.choice(
+                            [-1, 1], n_cov)
         base = np.concatenate([base, beta])
     return base
 
